@@ -12,7 +12,10 @@ observed values, module identities) must agree exactly.
 The oracle (independent of the model) judges the implementation's observations: confinement of every file
 opened / every name requested, no sentinel executed, at most one run of a module body (a start is allowed
 only when every earlier start of the same module had failed; an import cycle must be an error), one module object per name, same-named globals
-of different modules and of the importer never alias."""
+of different modules and of the importer never alias.
+Stage B also holds (a) trees with near-duplicate module names (letter case, Unicode folding / compatibility forms): different files are
+different modules; (b) histories of evaluations in one process under different import roots whose trees share module
+names: every evaluation resolves inside ITS root (a body of another root's file running is an escape)."""
 import json
 import os
 import shutil
@@ -248,6 +251,44 @@ MISSING = [b"nope", b"pkg/nope", b"zz/a", b"a/nope"]
 VARS = [b"x0", b"x1"]
 
 
+TWIN_INIT = 100000
+
+FOLD_ALIKE = {"s": "\u017f", "k": "\u212a", "a": "\uff41", "b": "\uff42", "i": "\u0131", "u": "\uff55", "l": "\uff4c"}
+
+
+def near_duplicate(rng, name):
+    """a different module name that equals `name` after some normalisation a cache or a file system might apply:
+    letter case of one or all components, Unicode case folding (long s, Kelvin sign, dotless i), compatibility
+    forms (full-width letters).  Every component stays an identifier, so the name can be written in an import."""
+    parts = [p.decode() for p in name.split(b"/")]
+    for _ in range(8):
+        q = list(parts)
+        r = rng.below(6)
+        j = rng.below(len(q))
+        if r == 0:
+            q[j] = q[j].upper()
+        elif r == 1:
+            q[j] = q[j][0].upper() + q[j][1:]
+        elif r == 2:
+            q = [x.upper() for x in q]
+        elif r == 3:
+            k = rng.below(len(q[j]))
+            q[j] = q[j][:k] + q[j][k].swapcase() + q[j][k + 1:]
+        elif r == 4:
+            if len(q) > 1:
+                continue      # the parser admits non-ASCII identifiers only in `from <ident> import ...` with one component
+            k = rng.below(len(q[j]))
+            alt = FOLD_ALIKE.get(q[j][k].lower())
+            if alt is None:
+                continue
+            q[j] = q[j][:k] + alt + q[j][k + 1:]
+        else:
+            q[-1] = q[-1].capitalize() if q[-1] != q[-1].capitalize() else q[-1].upper()
+        if q != parts and all(x.isidentifier() for x in q):
+            return "/".join(q).encode()
+    return None
+
+
 class Gen:
     def __init__(self, rng):
         self.rng = rng
@@ -380,18 +421,48 @@ class Gen:
         return with_prologue({"name": name, "ext": rng.choice([b".risor", b".risor", b".rsr"]), "bad": rng.chance(1, 30),
                               "vars": vars_, "body": body})
 
-    def tree(self, flavour):
+    def tree(self, flavour, seed_names=None, twins=0):
+        """seed_names: names that must be in the tree (module trees of several import roots share names);
+        twins: number of near-duplicate names to add - names that become equal to a name of the tree under some
+        normalisation (letter case, Unicode case folding / compatibility forms) and are nevertheless different
+        files, hence different modules"""
         rng = self.rng
         k = 3 + rng.below(7)
         names = []
+        for n in (seed_names or []):
+            if n not in names:
+                names.append(n)
         while len(names) < k:
             n = rng.choice(POOL)
             if n not in names:
                 names.append(n)
+        self.twin_pairs = []
+        for _ in range(twins):
+            cands = [n for n in names if all(is_ascii_ident(p) for p in n.split(b"/"))]
+            if not cands:
+                break
+            n = rng.choice(cands)
+            v = near_duplicate(rng, n)
+            if v is None or v in names:
+                continue
+            # the twin is imported after (or before) the original: place it at a random position
+            names.insert(rng.below(len(names) + 1), v)
+            self.twin_pairs.append((n, v))
         mods = []
         self.names = set(names)
+        twin_names = {x for pr in self.twin_pairs for x in pr}
         for i, n in enumerate(names):
-            mods.append(self.module(n, names[:i], names[i + 1:], flavour))
+            m = self.module(n, names[:i], names[i + 1:], flavour)
+            if n in twin_names:
+                # twins are plain, working modules with different initial values
+                m["bad"] = False
+                with_prologue(m)          # (a module generated as broken had been left without its prologue)
+                init = TWIN_INIT + 1000 * i       # distinct per module; no other value of a program is that large
+                m["vars"] = [(v, init + j) for j, (v, _) in enumerate(m["vars"])]
+                nv = len(m["vars"])
+                # nothing in the body of such a module touches its variables (a from-import of x0 would rebind it)
+                m["body"] = [x for (v, iv) in m["vars"] for x in (("S", v, iv), ("D", v))]
+            mods.append(m)
         # occasionally both extensions exist: the .risor file wins, the .rsr one must never be read
         extra = []
         for m in mods:
@@ -432,7 +503,54 @@ class Gen:
             self.probe_globals(scope, acts, expect)
         if rng.chance(1, 3):
             self.probe_from(mods, scope, acts, expect)
+        for pr in getattr(self, "twin_pairs", []):
+            if rng.chance(3, 4):
+                self.probe_twins(pr, scope, acts, expect)
+        for t in getattr(self, "foreign_names", []):
+            # a module that exists under ANOTHER import root of the same process, not under this one
+            sc2 = {}        # placed anywhere in the program: only its own binding is in scope for certain
+            body = [self.import_action(t, sc2, force_alias=True)]
+            for _ in range(1 + rng.below(2)):
+                self.observe(sc2, body, True)
+            acts.insert(len(mainvars) + rng.below(len(acts) - len(mainvars) + 1), ("T", body))
         return acts, mainvars, expect
+
+    def probe_twins(self, pair, scope, acts, expect):
+        """two module files whose names differ only by letter case / Unicode form are two modules: each runs its own
+        code once and keeps its own x0"""
+        rng = self.rng
+        n, v = pair if rng.chance(1, 2) else (pair[1], pair[0])
+        als = []
+        for t in (n, v):
+            if all(is_ascii_ident(p) for p in t.split(b"/")):
+                al = self.fresh()
+                acts.append(("I", t, al, "quoted"))
+                scope[al] = ("mod", t)
+                als.append((t, al, True))
+            else:
+                # a non-ASCII name can only be written in dotted from-import form: bind the module's x0
+                parts = t.split(b"/")
+                al = self.fresh()
+                if len(parts) == 1:
+                    acts.append(("F", [t], [(b"x0", al)], {"quoted": False, "grouped": False, "nl": False, "trail": False}))
+                    scope[al] = ("unk",)
+                    als.append((t, al, False))
+                else:
+                    acts.append(("F", parts[:-1], [(parts[-1], al)], {"quoted": False, "grouped": False, "nl": False, "trail": False}))
+                    scope[al] = ("mod", t)
+                    als.append((t, al, True))
+        (t1, a1, m1), (t2, a2, m2) = als
+        p1 = [a1, b"x0"] if m1 else [a1]
+        p2 = [a2, b"x0"] if m2 else [a2]
+        s1, s2 = self.next_sid(), self.next_sid()
+        acts += [("O", p1, s1), ("O", p2, s2)]
+        expect.append(("differ-init", s1, s2, "modules %r and %r (different files) show the same initial x0: one module's code ran for both" % (t1, t2)))
+        if m1 and m2:
+            w = 5000 + rng.below(1000)
+            s3, s4 = self.next_sid(), self.next_sid()
+            acts += [("C", [a1], b"x0", w), ("O", p1, s3), ("O", p2, s4)]
+            expect += [("is", s3, "i:%d" % w, "x0 of module %r does not read back after set_x0" % t1),
+                       ("equal", s2, s4, "set_x0 of module %r changed x0 of module %r (a different file)" % (t1, t2))]
 
     def probe_identity(self, scope, acts, expect):
         rng = self.rng
@@ -676,18 +794,18 @@ def ast_to_actions(sx):
 
 # ------------------------------------------------------------------ running
 
-def tree_files(rng, mods, with_sentinels=True):
+def tree_files(rng, mods, with_sentinels=True, root=ROOT, idx_base=0):
     files = {}
     idx = {}
     for i, m in enumerate(mods):
-        idx[i] = m["name"]
-        rel = ROOT + "/" + m["name"].decode("utf-8", "surrogateescape") + m["ext"].decode()
-        files[rel] = render_module(rng, m, i).encode()
+        idx[idx_base + i] = m["name"]
+        rel = root + "/" + m["name"].decode("utf-8", "surrogateescape") + m["ext"].decode()
+        files[rel] = render_module(rng, m, idx_base + i).encode()
     labels = {}
     if with_sentinels:
         sf, labels = sentinel_files(mods)
         for k, v in sf.items():
-            if not k.startswith(ROOT + "/"):
+            if not k.startswith(root + "/"):
                 files[k] = v
     return files, idx, labels
 
@@ -698,8 +816,8 @@ def run_go(obs, cases, work, tag):
     a runaway import cycle costs a thousand times more than an ordinary program."""
     units = []
     for ci, c in enumerate(cases):
-        step = 3
-        for lo in range(0, len(c["mains"]), step):
+        step = len(c["mains"]) if c.get("whole") else 3      # a history of evaluations in ONE process stays in one piece
+        for lo in range(0, len(c["mains"]), max(step, 1)):
             units.append((ci, lo, min(len(c["mains"]), lo + step)))
     per_job = max(1, len(units) // (C.NCPU * 8))
     jobs = [units[i:i + per_job] for i in range(0, len(units), per_job)]
@@ -709,8 +827,13 @@ def run_go(obs, cases, work, tag):
         with open(fin, "w") as f:
             for ci, lo, hi in jobs[k]:
                 c = cases[ci]
-                f.write(json.dumps({"files": {p: b.hex() for p, b in c["files"].items()}, "root": c["root"],
-                                    "rootarg": c.get("rootarg", ""), "mains": [m.hex() for m in c["mains"][lo:hi]]}) + "\n")
+                j = {"files": {p: b.hex() for p, b in c["files"].items()}, "root": c["root"],
+                     "rootarg": c.get("rootarg", ""), "mains": [m.hex() for m in c["mains"][lo:hi]]}
+                if c.get("roots"):
+                    j.update({"roots": c["roots"], "mainroot": c["mainroot"][lo:hi],
+                              "mainrootarg": c.get("mainrootarg", [""] * len(c["mains"]))[lo:hi],
+                              "sharelocal": bool(c.get("sharelocal"))})
+                f.write(json.dumps(j) + "\n")
         env = dict(os.environ)
         env["TMPDIR"] = work
         with open(fin, "rb") as i:
@@ -760,10 +883,17 @@ def run_model(model, lines, work, tag):
 
 # ------------------------------------------------------------------ canonical events
 
-def parse_real(events, idx):
-    """real events -> canonical tuples; module object ordinals renumbered by first appearance"""
+def parse_real(events, idx, foreign=None):
+    """real events -> canonical tuples; module object ordinals renumbered by first appearance.
+    foreign: tick index -> file label of the module files under the OTHER import roots of the same process; a body of
+    such a file running in this evaluation is an escape from the import root"""
     out = []
     for e in events:
+        if foreign and e[:2] in ("S:", "D:") and int(e[2:].split("@")[0].split(":")[0]) in foreign:
+            if e.startswith("S:"):
+                out.append(("ESC", "module file " + foreign[int(e[2:].split("@")[0].split(":")[0])] +
+                            " of another import root (used by another evaluation of the same process)"))
+            continue
         if e.startswith("S:"):
             body, d = e[2:].split("@")
             i, k = body.split(":")
@@ -963,10 +1093,10 @@ def static_cycle_names(mods):
     return cyc
 
 
-def oracle(route, evs, err, labels, expect, cyc_names):
+def oracle(route, evs, err, labels, expect, cyc_names, root=ROOT):
     """returns list of (kind, why, known_class or None)"""
     viol = []
-    root_parts = ROOT.split("/")
+    root_parts = root.split("/")
     stack = []          # module bodies in progress (names), index = import depth - 1
     completed = set()
     failed_or_done = {}
@@ -1035,12 +1165,37 @@ def oracle(route, evs, err, labels, expect, cyc_names):
         elif ex[0] == "equal-from":
             if ex[1] in main_obs and ex[2] in main_obs and main_obs[ex[1]] != main_obs[ex[2]]:
                 viol.append(("from-binding", "%s (%s vs %s)" % (ex[3], main_obs[ex[1]], main_obs[ex[2]]), None))
+        elif ex[0] == "differ-init":
+            # both values are initial values of near-duplicate modules (each module of such a pair starts from its own
+            # value >= TWIN_INIT; nothing else in a program is that large): equal means one code object ran for both
+            a, b = main_obs.get(ex[1], ""), main_obs.get(ex[2], "")
+            if a == b and a.startswith("i:") and int(a[2:]) >= TWIN_INIT:
+                viol.append(("state", "%s (both %s)" % (ex[3], a), None))
         elif ex[0] == "is":
             if ex[1] in main_obs and main_obs[ex[1]] != ex[2]:
                 viol.append(("state", "%s (observed %s, expected %s)" % (ex[3], main_obs[ex[1]], ex[2]), None))
     if err in ("GOPANIC", "panic-other", "timeout"):
         viol.append(("crash", "evaluation ended with %s" % err, None))
     return viol, depth_ok
+
+
+# other import roots used beside ROOT by the histories of evaluations in one process: a sibling whose name extends
+# ROOT's name, a sibling directory, a directory elsewhere (none inside another)
+MULTI_ROOTS = [["outer/rootb", "outer/root2", "outer/other/root"], ["tenants/b", "srv/imports", "outer/root.bak"]]
+
+
+def fs_case_sensitive(work):
+    p = os.path.join(work, "CaseProbe")
+    try:
+        open(p, "w").close()
+        return not os.path.exists(os.path.join(work, "caseprobe"))
+    except OSError:
+        return True
+    finally:
+        try:
+            os.unlink(p)
+        except OSError:
+            pass
 
 
 # ------------------------------------------------------------------ the check
@@ -1216,22 +1371,93 @@ def body(res, tools, work, proved):
                   "progs": wmains, "flavour": "witness"})
     flavours = ["dag"] * 18 + ["cyclic"] * 4 + ["selfonce"] * 2
     rootargs = ["", "", "", ROOT + "/", "outer/./root", "outer/other/../root", ROOT + "//"]
+    case_sensitive = fs_case_sensitive(work)
+    if not case_sensitive:
+        res.notes.append("the scratch file system folds letter case: near-duplicate module names differing by case are not generated")
     for ti in range(n_trees):
         g = Gen(rng)
         fl = rng.choice(flavours)
-        mods = g.tree(fl)
+        # every third tree holds near-duplicate names (equal after case folding / Unicode normalisation, different files)
+        mods = g.tree(fl, twins=(1 + rng.below(2)) if (ti % 3 == 0 and case_sensitive) else 0)
         files, idx, labels = tree_files(rng, mods)
         progs = [g.main(mods) for _ in range(mains_per_tree)]
+        stats["twin_trees"] = stats.get("twin_trees", 0) + (1 if g.twin_pairs else 0)
         cases.append({"mods": mods, "files": files, "idx": idx, "labels": labels, "rootarg": rng.choice(rootargs),
-                      "progs": progs, "flavour": fl})
+                      "progs": progs, "flavour": fl, "twins": list(g.twin_pairs)})
+    # ---- histories of evaluations in ONE process with DIFFERENT import roots: module trees that share names (with
+    # different contents), modules that exist under one root only; each evaluation must stay inside its own root
+    n_multi = 60 if tier == "quick" else 600
+    for ti in range(n_multi):
+        nroots = 2 + rng.below(2)
+        roots = [ROOT] + [rng.choice(MULTI_ROOTS[k]) for k in range(nroots - 1)]
+        gens, trees = [], []
+        shared_names = []
+        for ri, root in enumerate(roots):
+            g = Gen(rng)
+            seed = [n for n in shared_names if rng.chance(2, 3)]
+            mods = g.tree(rng.choice(["dag"] * 5 + ["cyclic"]), seed_names=seed,
+                          twins=1 if (case_sensitive and rng.chance(1, 6)) else 0)
+            for m in mods:
+                if m["name"] not in shared_names:
+                    shared_names.append(m["name"])
+            gens.append(g)
+            trees.append(mods)
+        files, idxs, labels = {}, [], {}
+        for ri, root in enumerate(roots):
+            f, idx, lab = tree_files(rng, trees[ri], with_sentinels=(ri == 0), root=root, idx_base=1000 * ri)
+            files.update(f)
+            idxs.append(idx)
+            if ri == 0:
+                labels = lab
+        # sentinels lie outside EVERY root and never overwrite a module file
+        for f in [f for f in files if any(f.startswith(r + "/") for r in roots[1:])]:
+            del files[f]
+        for ri, root in enumerate(roots):
+            for m in trees[ri]:
+                rel = root + "/" + m["name"].decode("utf-8", "surrogateescape") + m["ext"].decode()
+                files[rel] = render_module(rng, m, 1000 * ri + trees[ri].index(m)).encode()
+        foreign = []
+        for ri, root in enumerate(roots):
+            fo = {}
+            for rj, other in enumerate(roots):
+                if rj != ri:
+                    for i, m in enumerate(trees[rj]):
+                        fo[1000 * rj + i] = other + "/" + m["name"].decode("utf-8", "replace") + m["ext"].decode()
+            foreign.append(fo)
+        n_ev = 4 + rng.below(4)
+        order = [0, 1] if rng.chance(1, 2) else [1, 0]
+        while len(order) < n_ev:
+            order.append(rng.below(nroots))
+        progs, mainroot, mainrootarg = [], [], []
+        for ri in order:
+            g = gens[ri]
+            have = {m["name"] for m in trees[ri]}
+            others = sorted({m["name"] for rj in range(nroots) if rj != ri for m in trees[rj]
+                             if not m["bad"]} - have)
+            g.foreign_names = [rng.choice(others)] if (others and rng.chance(2, 3)) else []
+            progs.append(g.main(trees[ri]))
+            g.foreign_names = []
+            mainroot.append(ri)
+            mainrootarg.append(rng.choice(["", "", roots[ri] + "/", roots[ri].replace("/", "/./", 1)]))
+        cases.append({"mods": trees[0], "files": files, "idx": idxs[0], "labels": labels, "rootarg": "", "progs": progs,
+                      "flavour": "multiroot", "roots": roots, "trees": trees, "idxs": idxs, "foreign": foreign,
+                      "mainroot": mainroot, "mainrootarg": mainrootarg, "sharelocal": rng.chance(1, 2), "whole": True})
     go_cases = []
     model_lines = []
     for c in cases:
         mains_txt = [render_main(rng, p[0], p[1]).encode() for p in c["progs"]]
         c["texts"] = mains_txt
-        go_cases.append({"files": c["files"], "root": ROOT, "rootarg": c["rootarg"], "mains": mains_txt})
-        for p in c["progs"]:
-            model_lines.append(enc_case(c["rootarg"] or ROOT, c["mods"], p[0]))
+        gc = {"files": c["files"], "root": ROOT, "rootarg": c["rootarg"], "mains": mains_txt}
+        for k in ("roots", "mainroot", "mainrootarg", "sharelocal", "whole"):
+            if k in c:
+                gc[k] = c[k]
+        go_cases.append(gc)
+        for pi, p in enumerate(c["progs"]):
+            if c.get("roots"):
+                ri = c["mainroot"][pi]
+                model_lines.append(enc_case(c["mainrootarg"][pi] or c["roots"][ri], c["trees"][ri], p[0]))
+            else:
+                model_lines.append(enc_case(c["rootarg"] or ROOT, c["mods"], p[0]))
     C.log("C14: stage B generated (%d programs)" % len(model_lines))
     go_out = run_go(tools["c14obs"], go_cases, work, "stB")
     C.log("C14: stage B implementation runs done")
@@ -1240,21 +1466,38 @@ def body(res, tools, work, proved):
     k = 0
     for ci, c in enumerate(cases):
         cyc = static_cycle_names(c["mods"])
+        multi = bool(c.get("roots"))
         for pi, p in enumerate(c["progs"]):
             o = go_out[ci][pi]
             mline = mo_out[k]
             k += 1
             evals += 1
             stats["programs"] += 1
-            case = {"stage": "tree", "flavour": c["flavour"], "rootarg": c["rootarg"],
-                    "main": c["texts"][pi].decode("utf-8", "replace"),
-                    "modules": {m["name"].decode("utf-8", "replace") + m["ext"].decode():
-                                c["files"][ROOT + "/" + m["name"].decode("utf-8", "surrogateescape") + m["ext"].decode()].decode("utf-8", "replace")
-                                for m in c["mods"]}}
+            if multi:
+                ri = c["mainroot"][pi]
+                my_root, my_mods, my_idx, my_foreign = c["roots"][ri], c["trees"][ri], c["idxs"][ri], c["foreign"][ri]
+                cyc = static_cycle_names(my_mods)
+                stats["multiroot_evaluations"] = stats.get("multiroot_evaluations", 0) + 1
+                case = {"stage": "multiroot", "flavour": c["flavour"], "roots": c["roots"], "evaluation": pi,
+                        "import_root_of_this_evaluation": my_root, "sharelocal": c["sharelocal"],
+                        "history": [{"root": c["roots"][c["mainroot"][q]], "rootarg": c["mainrootarg"][q],
+                                     "main": c["texts"][q].decode("utf-8", "replace")} for q in range(pi + 1)],
+                        "mainroot": c["mainroot"][:pi + 1], "mainrootarg": c["mainrootarg"][:pi + 1],
+                        "files": {f: b.decode("utf-8", "replace") for f, b in c["files"].items()
+                                  if any(f.startswith(r + "/") for r in c["roots"])}}
+            else:
+                my_root, my_mods, my_idx, my_foreign = ROOT, c["mods"], c["idx"], None
+                case = {"stage": "tree", "flavour": c["flavour"], "rootarg": c["rootarg"],
+                        "main": c["texts"][pi].decode("utf-8", "replace"),
+                        "modules": {m["name"].decode("utf-8", "replace") + m["ext"].decode():
+                                    c["files"][ROOT + "/" + m["name"].decode("utf-8", "surrogateescape") + m["ext"].decode()].decode("utf-8", "replace")
+                                    for m in c["mods"]}}
+                if c.get("twins"):
+                    case["near_duplicate_names"] = [[a.decode("utf-8", "replace"), b.decode("utf-8", "replace")] for a, b in c["twins"]]
             for route in ("plain", "local", "fs"):
                 r = o[route]
-                evs = parse_real(r["events"], c["idx"])
-                viol, depth_ok = oracle(route, evs, r["err"], c["labels"], p[2], cyc)
+                evs = parse_real(r["events"], my_idx, my_foreign)
+                viol, depth_ok = oracle(route, evs, r["err"], c["labels"], p[2], cyc, root=my_root)
                 if not depth_ok:
                     stats["no_depth"] += 1
                 for v in viol:
@@ -1267,8 +1510,8 @@ def body(res, tools, work, proved):
             inc = o.get("incr")
             if inc is not None and o["plain"]["err"] not in ("parse", "compile", "timeout") and inc["err"] != "timeout":
                 stats["incremental"] = stats.get("incremental", 0) + 1
-                pe = [e for e in parse_real(o["plain"]["events"], c["idx"])]
-                ie = [e for e in parse_real(inc["events"], c["idx"])]
+                pe = [e for e in parse_real(o["plain"]["events"], my_idx)]
+                ie = [e for e in parse_real(inc["events"], my_idx)]
                 pe, ie = strip_depth(canon(strip_sid(pe))), strip_depth(canon(strip_sid(ie)))
                 if pe != ie or o["plain"]["err"] != inc["err"]:
                     j = 0
@@ -1284,7 +1527,7 @@ def body(res, tools, work, proved):
                 continue
             if acc != "acc=1":
                 corr_diffs.append({"stage": "accepted", "case": case, "model": "generated program not accepted by the model"})
-            compare_routes(o, mevs, outcome, c["idx"], case, corr_diffs, stats)
+            compare_routes(o, mevs, outcome, my_idx, case, corr_diffs, stats)
             if any(v[3] > 0 for v in counters.values()):
                 stats["cycle_cases"] += 1
             if any(v[2] > 0 and v[0] > 1 for v in counters.values()):
@@ -1305,8 +1548,13 @@ def body(res, tools, work, proved):
                    "extensions, broken and failing modules, transitive/cyclic/self imports) x %d main programs rendered from "
                    "abstract actions, traces of body starts/ends (with import depth read off the Go call stack), importer "
                    "requests, files opened, observed values and module identities compared event by event with the model; every program also runs statement by statement on one VM whose main code grows (REPL style) and must give the same events and outcome as in one piece; "
+                   "every third tree holds near-duplicate module names (equal after letter-case folding, Unicode case folding or "
+                   "compatibility forms; different files) with probes that each such module runs its own code once and keeps its own "
+                   "x0; %d histories of 4-7 evaluations in ONE process with 2-3 different import roots (trees that share names with "
+                   "different contents, modules present under one root only, root spellings, optionally one LocalImporter per root "
+                   "reused across the evaluations): a module file of another root running in an evaluation is an escape; "
                    "independent oracle on the observations. Non-trivial = texts whose import reached the importer, "
-                   "programs with at least two module body starts." % (len(texts), len(cases), mains_per_tree))
+                   "programs with at least two module body starts." % (len(texts), len(cases), mains_per_tree, n_multi))
     cov["samples"] = samples
     cov["correspondence"] = {"differences": len(corr_diffs), "stats": stats}
     cov["input_distribution"] = {"texts": len(texts), "trees": len(cases), "programs": stats["programs"],
@@ -1324,6 +1572,19 @@ def body(res, tools, work, proved):
         res.known_finding("%s [witness: %s]" % (kf.get("what", cls), kf.get("witness", "")[:160]))
         cov.setdefault("known_finding_observations", {})[cls] = {"distinct": len(whys), "total": sum(whys.values()),
                                                                  "examples": sorted(whys)[:3]}
+    if oracle_viol:
+        by = {}
+        for v in oracle_viol:
+            kk = "%s/%s" % (v.get("stage"), v.get("aspect"))
+            by[kk] = by.get(kk, 0) + 1
+        cov["oracle_violations_by_stage"] = by
+        # report one of each (stage, aspect) first
+        seen, first, rest = set(), [], []
+        for v in oracle_viol:
+            kk = (v.get("stage"), v.get("aspect"))
+            (rest if kk in seen else first).append(v)
+            seen.add(kk)
+        oracle_viol = first + rest
     for v in oracle_viol[:10]:
         res.violation(v)
     if oracle_viol:
@@ -1384,6 +1645,21 @@ def replay(data):
         files, idx, labels = tree_files(rng, FIXED_TREE)
         mains = [data["input"].encode("utf-8", "surrogateescape")]
         rootarg = ""
+    elif data.get("stage") == "multiroot" or data.get("case", {}).get("stage") == "multiroot":
+        c = data if data.get("stage") == "multiroot" else data["case"]
+        files = {k: v.encode("utf-8", "surrogateescape") for k, v in c["files"].items()}
+        gc = {"files": files, "root": ROOT, "rootarg": "", "mains": [h["main"].encode("utf-8", "surrogateescape") for h in c["history"]],
+              "roots": c["roots"], "mainroot": c["mainroot"], "mainrootarg": c["mainrootarg"], "sharelocal": c.get("sharelocal", False),
+              "whole": True}
+        os.makedirs(C.WORK, exist_ok=True)
+        work = tempfile.mkdtemp(prefix="c14r-", dir=C.WORK)
+        try:
+            out = run_go(obs, [gc], work, "replay")
+            print("the last evaluation of the history (import root %s):" % c["import_root_of_this_evaluation"])
+            print(json.dumps(out[0][-1], indent=1))
+        finally:
+            shutil.rmtree(work, ignore_errors=True)
+        return 0
     else:
         c = data.get("case", data)
         files = {ROOT + "/" + k: v.encode("utf-8", "surrogateescape") for k, v in c.get("modules", {}).items()}
